@@ -60,6 +60,11 @@ pub(crate) fn format(src: &str, path: &Path) -> String {
         &mut visitor.processed_lines,
     );
 
+    // Lines that begin inside a token (the continuation lines of a
+    // multi-line string literal) must keep their leading whitespace:
+    // it is part of the literal.
+    drop_edits_inside_tokens(src, &vfs_path, &mut visitor.line_edits);
+
     // Phase 4: Apply span edits first (single-line block spacing)
     let src_after_spans = apply_span_edits(src, &mut visitor.span_edits);
 
@@ -681,6 +686,27 @@ fn collect_comment_edits(
             processed_lines.insert(line_num);
         }
     }
+}
+
+/// Remove indentation edits for lines whose first byte lies inside a
+/// token. Only string literals can span lines, and re-indenting their
+/// continuation lines would change the string's value.
+fn drop_edits_inside_tokens(
+    src: &str,
+    vfs_path: &crate::parser::vfs::VfsPathBuf,
+    line_edits: &mut Vec<LineEdit>,
+) {
+    let (mut token_stream, _) = lex_between(vfs_path, src, 0, src.len());
+
+    let mut lines_inside_tokens: FxHashSet<usize> = FxHashSet::default();
+    while let Some(token) = token_stream.pop() {
+        let newlines = token.text.matches('\n').count();
+        for i in 1..=newlines {
+            lines_inside_tokens.insert(token.position.line_number + i);
+        }
+    }
+
+    line_edits.retain(|edit| !lines_inside_tokens.contains(&edit.line_number));
 }
 
 /// Apply indentation edits to the source while preserving blank lines.
